@@ -31,16 +31,18 @@ def run(ctx):
     clears = [n for n in g.nodes if n.stmt is not None and n.part == 'eval' and any(last_attr(c) == 'clear' and '__dict__' in (receiver(c) or '') for c in n.calls())]
     ctx.check('R1', 'restart() clears the instance dictionary', len(clears) >= 1, 'PersistentWorker.restart', 'no-dict-clear', 'restart() does not reset the instance', where=loc(rs, rs.node))
     # evidence A: false edge of `not self.wait(...)` ; evidence B: false edge of `self.is_alive()` test whose true side raises, after terminate
-    ev = set()
+    ev = set()       # evidence *edges* (the two sides re-join before the clear, so nodes would not do)
     for n in g.nodes:
         if n.kind == 'test' and isinstance(n.stmt, ast.If) and n.part in (None, 'post'):
             t = n.stmt.test
             if isinstance(t, ast.UnaryOp) and isinstance(t.op, ast.Not) and isinstance(t.operand, ast.Call) and last_attr(t.operand) == 'wait' and receiver(t.operand) == 'self':
-                ev |= {e.dst.id for e in n.succ if e.kind == 'false'}
+                ev |= {id(e) for e in n.succ if e.kind == 'false'}
+            if isinstance(t, ast.Call) and last_attr(t) == 'wait' and receiver(t) == 'self':
+                ev |= {id(e) for e in n.succ if e.kind == 'true'}
             if isinstance(t, ast.Call) and last_attr(t) == 'is_alive' and receiver(t) == 'self' and any(isinstance(x, ast.Raise) for x in n.stmt.body):
-                ev |= {e.dst.id for e in n.succ if e.kind == 'false'}
-    # path query: entry -> clear avoiding every evidence node  (the wait-true side joins the terminate side before the clear, so use paths not dominators)
-    p = g.find_path([g.entry], lambda n: n in clears, edge_ok=is_flow, node_ok=lambda n: n.id not in ev)
+                ev |= {id(e) for e in n.succ if e.kind == 'false'}
+    # path query: entry -> clear without traversing any evidence edge
+    p = g.find_path([g.entry], lambda n: n in clears, edge_ok=lambda e: is_flow(e) and id(e) not in ev)
     ctx.check('R1', '__dict__.clear() is only reached with evidence that the old incarnation is dead', p is None and bool(ev), 'PersistentWorker.restart', 'clear-without-death-evidence',
               'restart() can throw the old incarnation\'s state away (and start a new child) while the old child may still be running: a running child is abandoned',
               where=loc(rs, rs.node), path=path_str(p or []))
